@@ -109,6 +109,19 @@ type MapV struct {
 	keys    []string
 	entries map[string][2]Value // key repr -> (key, value)
 	nilmap  bool
+	cell    *Cell // symbolic map: contents (*SymMap) live in the state
+}
+
+// SymMap is the (immutable) content of a symbolic map: an uninterpreted base
+// relation plus a list of writes, newest last.
+type SymMap struct {
+	name   string
+	vt     types.Type
+	writes []mapWrite
+}
+type mapWrite struct {
+	key []*Term
+	val Value
 }
 
 type appRec struct {
